@@ -3,8 +3,8 @@ package sim
 import (
 	"context"
 	"fmt"
-	"net"
 	"math/rand"
+	"net"
 	"net/http"
 	"net/netip"
 	"strings"
